@@ -113,6 +113,19 @@ def run_acceptance(item):
                           sel, algo, c, 'accepts' if ok else 'refuses', first[0], 'accepts' if okh else 'refuses'))
     if not okh and len(rmh.get_quantization_recipe()) != n0:
       raise Violation('refused_update_changed_recipe', '%s %s %s (manager holding (.*, %s))' % (sel, algo, c, first[0]))
+  # an earlier matching rule that opted out of the checks must not switch them
+  # off for a later one
+  forced = R.make_config(dict(R.DRQ8, skip=True))
+  rm4 = recipe_manager.RecipeManager()
+  rm4.add_quantization_config('some', qtyping.TFLOperationName.ALL_SUPPORTED, forced, R.MINMAX)
+  rm4.add_quantization_config('.*', qtyping.TFLOperationName.ALL_SUPPORTED, cfg, algo)
+  got4 = rm4.get_quantization_configs(qtyping.TFLOperationName(sel), 'some/op;')
+  key4 = str(getattr(got4[0], 'value', got4[0]))
+  want4 = (key, got[1]) if key != R.NOQ else (R.MINMAX, forced)
+  if (key4, got4[1]) != want4:
+    raise Violation('star_rule_let_through_after_skip_checks_rule',
+                    '%s %s %s: after a matching skip_checks rule the later "*" rule resolves to %s, want %s' % (
+                        sel, algo, c, key4, want4[0]))
   # the verdict is a function of (op, config): replacing an earlier '*' rule that
   # has already been resolved must give what a fresh manager gives
   for prior in (PRIORS[algo]):
